@@ -203,9 +203,14 @@ def _judge_module(case, res, fam, lst, m, ex, vecs, via):
         new_ex.append(ex[pool[key].pop()])
     exists = any(is_trunk(ex, i) for i in range(len(ex)))
     attrs = dict(fam=fam, n=len(lst), via=via, repeated=len(set(ex)) < len(ex))
-    if m.has_stog != exists:
-        res.violation('sound-complete', case, dict(attrs, dup_of_trunk=m.has_stog and not exists and attrs['repeated']),
-                      exists, m.has_stog)
+    try:
+        has = m.has_stog
+    except Exception as e:  # noqa  (the report itself must be total)
+        res.violation('raises', case, dict(attrs, exc=type(e).__name__), exists, f'has_stog: {type(e).__name__}: {e}')
+        return
+    if has != exists:
+        res.violation('sound-complete', case, dict(attrs, dup_of_trunk=has and not exists and attrs['repeated']),
+                      exists, has)
         return
     locs = [r.location.name for r in rects]
     if exists:
